@@ -221,6 +221,28 @@ func main() {
 			merge(local)
 		})
 	}
+	// sequences of reflected values (encodable, unencodable, array that carries on after unencodable
+	// elements) with zap's default reflection encoder and a user-supplied streaming one
+	rlists, _ := encx.ReflectSeqLists(nodes)
+	par.For(32, func(sh int) {
+		local := map[string]struct{}{}
+		for _, re := range []string{"", "partial"} {
+			rc := c
+			rc.ReflectEnc = re
+			enc := zapcore.NewConsoleEncoder(rc.EncoderConfig())
+			for li := sh; li < len(rlists); li += 32 {
+				specs := rlists[li]
+				for a := 0; a <= len(specs); a++ {
+					p := encx.Placement{Call: specs[a:]}
+					if a > 0 {
+						p.With = [][]*encx.Spec{specs[:a]}
+					}
+					check(run, rc, enc, e, p, "reflect-seq:"+re, local)
+				}
+			}
+		}
+		merge(local)
+	})
 	// full leaf alphabet in every context class
 	par.For(len(leaves), func(i int) {
 		local := map[string]struct{}{}
@@ -251,6 +273,7 @@ func main() {
 	run.Assume = []string{
 		"configuration product as in C01 (12320 key/sub-encoder combinations incl. nil and no-op) x entry variants x separators {default, |, space, ::, multi-byte} x line endings; messages and function names are non-empty (an empty column value makes the 'joined by the separator' reading ambiguous)",
 		"a nil or no-op sub-encoder yields no column; a nil name encoder falls back to the full name (documented)",
+		"sequences of <= max_tree_nodes reflected values (encodable / unencodable / failing json.Marshaler / array that carries on after unencodable elements) under zap's default reflection encoder and under a user-supplied streaming NewReflectedEncoder that fails after partial output",
 		"the field object is compared as a decoded tree (whitespace-insensitive) with the same reference tree as C02",
 	}
 	run.Finish(map[string]any{
